@@ -1,11 +1,11 @@
 SPECIFICATION MCSpec
 CONSTANTS
-  Replicas = {1, 2, 3}
+  Replicas = {1, 2, 3, 4}
   Pool <- MCPool
-  PoolSize = 7
+  PoolSize = 8
   Limit = 3
   MaxDepth = 0
-  MaxLevel = 6
+  MaxLevel = 5
   InitBases <- MCInitBases
   Crafts <- CraftsQuick
   Perms = {"owner", "writer", "anyone"}
